@@ -15,7 +15,7 @@ static int tokens(char *s, const char *sep, char *tok[20]) {
     for (;;) { tok[n++] = p; char *q = strstr(p, sep); if (!q || n >= 20) break; *q = 0; p = q + sl; }
     return n;
 }
-static void one_A(int si, int li, unsigned A, struct res *r, long x) {
+static void one_A(int si, int li, unsigned A, struct res *r, long x, int full) {
     const polyseed_lang *lang = polyseed_get_lang(li);
     /* the same abstract seed through load or, for every fourth coin, through create with argument bits above the three feature bits set
      * (documented as ignored) plus crypt with a zero mask for the encrypted flag */
@@ -28,7 +28,7 @@ static void one_A(int si, int li, unsigned A, struct res *r, long x) {
     polyseed_str phA, ph0; uint8_t st0[32], stm[32]; polyseed_store(s, st0); ref_storage(&SEEDS[si], stm);
     if (memcmp(st0, stm, 32)) { res_viol(r, "c05:setup-seed", "", "the seed under test (made by %s) does not serialise to the model seed", (A & 3) == 1 ? "create" : "load"); polyseed_free(s); ledger_drop_all(); return; }
     /* the phrase for A restores under exactly the seed's own user features, too (nothing else is needed to read it back) */
-    { polyseed_str pm; polyseed_encode(s, lang, (polyseed_coin)A, pm); polyseed_enable_features(SEEDS[si].features & 7); polyseed_data *dm = NULL; int sm = polyseed_decode_explicit(pm, (polyseed_coin)A, lang, &dm); polyseed_enable_features(7); r->calls += 2;
+    { polyseed_str pm; polyseed_encode(s, lang, (polyseed_coin)A, pm); polyseed_enable_features((SEEDS[si].features & 7) | ((A & 32) ? 0xFFFFFFF8u : (A & 64) ? 0x10u : 0)); polyseed_data *dm = NULL; int sm = polyseed_decode_explicit(pm, (polyseed_coin)A, lang, &dm); polyseed_enable_features((A & 16) ? 0xFFFFFFFFu : 7); r->calls += 2;   /* "only the least significant 3 bits are used": the argument's other bits vary with the coin and change nothing */
       if (sm == POLYSEED_OK) polyseed_free(dm); else { char rp[120], hh[40]; hex(SEEDS[si].secret, 19, hh); sprintf(rp, "case %s %u %u %d %u %u", hh, SEEDS[si].birthday, SEEDS[si].features, li, A, A); res_viol(r, "c05:samecoin-own-features", rp, "phrase for coin %u decoded for the same coin with exactly the seed's user features enabled: status %d", A, sm); } }
     polyseed_encode(s, lang, (polyseed_coin)A, phA); polyseed_encode(s, lang, 0, ph0); r->calls += 3;
     char rep[200], key[100], h[40]; hex(SEEDS[si].secret, 19, h);
@@ -45,7 +45,9 @@ static void one_A(int si, int li, unsigned A, struct res *r, long x) {
         if (bad) { sprintf(rep, "case %s %u %u %d %u %u", h, SEEDS[si].birthday, SEEDS[si].features, li, A, A); snprintf(key, sizeof key, "c05:worddiff:%s", RL[li].code); res_viol(r, key, rep, "phrases for coin %u and coin 0 do not differ in exactly the second word (%d)", A, bad); }
         else { r->validated++; r->cls[2]++; }
     }
-    for (unsigned B = 0; B < 2048; B++) {
+    /* full: every B; otherwise A itself and five neighbours (every list word still appears as the second word of a phrase that must decode for its own coin) */
+    for (unsigned Bi = 0; Bi < (full ? 2048u : 6u); Bi++) {
+        unsigned B = full ? Bi : Bi == 0 ? A : Bi == 1 ? (A ^ 1) : Bi == 2 ? (A ^ 1024) : Bi == 3 ? ((A + 1) & 2047) : Bi == 4 ? (A ^ 2047) : ((A * 29 + 7) & 2047); if (!full && Bi && B == A) continue;
         polyseed_data *d = NULL;
         int st = polyseed_decode_explicit(phA, (polyseed_coin)B, lang, &d); r->calls++; r->cases++;
         r->digest ^= mix64((uint64_t)x * 2048 + B, st);
@@ -74,19 +76,19 @@ static void one_A(int si, int li, unsigned A, struct res *r, long x) {
             if (st != want) { sprintf(rep, "case %s %u %u %d %u %u", h, SEEDS[si].birthday, SEEDS[si].features, li, A, B); snprintf(key, sizeof key, "c05:wrongcoin-disabled-feature:%s", RL[li].code); res_viol(r, key, rep, "phrase for coin %u with user features %u, none enabled, decoded for coin %u returned %d (expected %d)", A, SEEDS[si].features & 7, B, st, want); break; }
             r->validated++; r->cls[B == A ? 1 : 0]++;
         }
-        polyseed_enable_features(7);
+        polyseed_enable_features((A & 16) ? 0xFFFFFFFFu : 7);
     }
     polyseed_free(s);
     if (ledger_live()) { res_viol(r, "c05:leak", "", "ledger not empty"); ledger_drop_all(); }
 }
-struct job { int si, li; unsigned A; };
+struct job { int si, li; unsigned A; int full; };
 static struct job *JOBS; static long NJ;
 static void work(long lo, long hi, struct res *r, void *arg) {
     (void)arg;
     for (long x = lo; x < hi; x++) {
         if (past_deadline()) { r->timed_out = 1; return; }
         extern char *G_cur; if (G_cur) sprintf(G_cur, "job seed=%d lang=%d A=%u", JOBS[x].si, JOBS[x].li, JOBS[x].A);
-        one_A(JOBS[x].si, JOBS[x].li, JOBS[x].A, r, x);
+        one_A(JOBS[x].si, JOBS[x].li, JOBS[x].A, r, x, JOBS[x].full);
     }
     if (r->nsample < 1 && lo < hi) res_sample(r, "seed #%d lang=%s: phrase for coin A=%u decoded for every B in 0..2047", JOBS[lo].si, RL[JOBS[lo].li].code, JOBS[lo].A);
 }
@@ -103,7 +105,7 @@ int main(int argc, char **argv) {
         polyseed_encode(sd, polyseed_get_lang(li), A, ph); polyseed_encode(sd, polyseed_get_lang(li), 0, ph0);
         int st = polyseed_decode_explicit(ph, B, polyseed_get_lang(li), &d);
         printf("coin %u: %s\ncoin 0: %s\ndecode for coin %u -> %d\n", A, ph, ph0, B, st);
-        SEEDS[0] = s; NS = 1; one_A(0, li, A, r, 0);
+        SEEDS[0] = s; NS = 1; one_A(0, li, A, r, 0, 1);
         for (int i = 0; i < r->nviol; i++) printf("REPRODUCED %s: %s\n", r->v[i].key, r->v[i].msg);
         return r->nviol ? 1 : 0;
     }
@@ -128,17 +130,18 @@ int main(int argc, char **argv) {
             if (RL[2].wlen[c0] == mx) { c[0] = c0; ref_from_coeffs(c, &SEEDS[NS]); KO_EXTREMAL = NS; KO_C1 = c[1]; NS++; break; }
         }
     }
-    JOBS = malloc(sizeof(struct job) * (NS + 1) * R_NLANG * 2048);
+    JOBS = malloc(sizeof(struct job) * (NS + 1) * R_NLANG * (2048 + 2048 + 32));
     for (int si = 0; si < NS; si++) for (int li = 0; li < R_NLANG; li++) {
-        if (si == KO_EXTREMAL) { if (li == 2) { size_t mx = 0; for (unsigned i = 0; i < R_NW; i++) if (RL[2].wlen[i] > mx) mx = RL[2].wlen[i]; for (unsigned A = 0; A < 2048; A++) if (RL[2].wlen[KO_C1 ^ A] == mx) JOBS[NJ++] = (struct job){ si, li, A }; } continue; }
+        if (si == KO_EXTREMAL) { if (li == 2) { size_t mx = 0; for (unsigned i = 0; i < R_NW; i++) if (RL[2].wlen[i] > mx) mx = RL[2].wlen[i]; for (unsigned A = 0; A < 2048; A++) if (RL[2].wlen[KO_C1 ^ A] == mx) JOBS[NJ++] = (struct job){ si, li, A, 1 }; } continue; }
         int all = LANG_A_ALL[li] && (li == 0 || si < 2);
         if (li >= 8 && si >= 2) continue;       /* Chinese (linear search): two seeds */
-        if (all) for (unsigned A = 0; A < 2048; A++) JOBS[NJ++] = (struct job){ si, li, A };
-        else for (int i = 0; i < 32; i++) JOBS[NJ++] = (struct job){ si, li, A_SUBSET[i] };
+        if (all) for (unsigned A = 0; A < 2048; A++) JOBS[NJ++] = (struct job){ si, li, A, 1 };
+        else { for (int i = 0; i < 32; i++) JOBS[NJ++] = (struct job){ si, li, A_SUBSET[i], 1 };
+               if (si < 2) for (unsigned A = 0; A < 2048; A++) JOBS[NJ++] = (struct job){ si, li, A, 0 }; }      /* every A, a handful of B */
     }
     out_begin();
     par_run(NJ, work, NULL, r);
-    out_part("ordered coin pairs (A encodes, B decodes)", r, CLS, "English: all 2048 x 2048 pairs per seed; other languages: 32 values of A (quick) or all A (thorough, sorted lists) x all B");
+    out_part("ordered coin pairs (A encodes, B decodes)", r, CLS, "English: all 2048 x 2048 pairs per seed; other languages: 32 values of A (quick) or all A (thorough, sorted lists) x all B, and every A x {A, five other B}");
     out_kv_int("seeds", NS); out_kv_int("jobs_A", NJ);
     out_end();
     return 0;
